@@ -74,6 +74,10 @@ struct Tickit {
 
   TickitWatch *iowatches, *timers, *laters, *signals, *processes;
 
+  /* timers and laters detached from the queues above while
+   * tickit_evloop_invoke_timers() is running them */
+  TickitWatch *running_timers, *running_laters;
+
   const TickitEventHooks *evhooks;
   void                   *evdata;
 
@@ -198,6 +202,9 @@ Tickit *tickit_build(const struct TickitBuilder *builder)
   t->laters    = NULL;
   t->signals   = NULL;
   t->processes = NULL;
+
+  t->running_timers = NULL;
+  t->running_laters = NULL;
 
   t->signal.pipefds[0] = -1;
   t->signal.pipewatch = NULL;
@@ -698,32 +705,8 @@ void *tickit_watch_process(Tickit *t, pid_t pid, TickitBindFlags flags, TickitCa
   return watch;
 }
 
-void tickit_watch_cancel(Tickit *t, void *_watch)
+static bool cancel_watch_in(Tickit *t, TickitWatch **thisp, TickitWatch *watch)
 {
-  TickitWatch *watch = _watch;
-
-  TickitWatch **thisp;
-  switch(watch->type) {
-    case WATCH_IO:
-      thisp = &t->iowatches;
-      break;
-    case WATCH_TIMER:
-      thisp = &t->timers;
-      break;
-    case WATCH_LATER:
-      thisp = &t->laters;
-      break;
-    case WATCH_SIGNAL:
-      thisp = &t->signals;
-      break;
-    case WATCH_PROCESS:
-      thisp = &t->processes;
-      break;
-
-    case WATCH_NONE:
-      return;
-  }
-
   while(*thisp) {
     TickitWatch *this = *thisp;
     if(this == watch) {
@@ -760,12 +743,41 @@ void tickit_watch_cancel(Tickit *t, void *_watch)
       }
 
       free(this);
+      return true;
     }
 
-    if(!thisp || !*thisp)
+    thisp = &(*thisp)->next;
+  }
+
+  return false;
+}
+
+void tickit_watch_cancel(Tickit *t, void *_watch)
+{
+  TickitWatch *watch = _watch;
+
+  switch(watch->type) {
+    case WATCH_IO:
+      cancel_watch_in(t, &t->iowatches, watch);
+      break;
+    case WATCH_TIMER:
+      /* it may be waiting its turn in the currently-running iteration */
+      if(!cancel_watch_in(t, &t->timers, watch))
+        cancel_watch_in(t, &t->running_timers, watch);
+      break;
+    case WATCH_LATER:
+      if(!cancel_watch_in(t, &t->laters, watch))
+        cancel_watch_in(t, &t->running_laters, watch);
+      break;
+    case WATCH_SIGNAL:
+      cancel_watch_in(t, &t->signals, watch);
+      break;
+    case WATCH_PROCESS:
+      cancel_watch_in(t, &t->processes, watch);
       break;
 
-    thisp = &(*thisp)->next;
+    case WATCH_NONE:
+      return;
   }
 }
 
@@ -790,10 +802,22 @@ int tickit_evloop_next_timer_msec(Tickit *t)
   return msec;
 }
 
+static void append_watches(TickitWatch **watchesptr, TickitWatch *more)
+{
+  while(*watchesptr)
+    watchesptr = &(*watchesptr)->next;
+
+  *watchesptr = more;
+}
+
 void tickit_evloop_invoke_timers(Tickit *t)
 {
-  /* detach the later queue before running any events */
-  TickitWatch *later = t->laters;
+  /* Detach the later queue and the due prefix of the timer queue before
+   * running any events, so that whatever the callbacks register waits for a
+   * later iteration. The detached watches stay reachable from t so that
+   * tickit_watch_cancel() can still find them.
+   */
+  append_watches(&t->running_laters, t->laters);
   t->laters = NULL;
 
   if(t->timers) {
@@ -803,29 +827,34 @@ void tickit_evloop_invoke_timers(Tickit *t)
     /* timer queue is stored ordered, so we can just eat a prefix
      * of it
      */
+    TickitWatch **endp = &t->timers;
+    while(*endp && !timercmp(&(*endp)->timer.at, &now, >))
+      endp = &(*endp)->next;
 
-    TickitWatch *this = t->timers;
-    while(this) {
-      if(timercmp(&this->timer.at, &now, >))
-        break;
+    TickitWatch *rest = *endp;
+    *endp = NULL;
 
-      /* TODO: consider what info might point at */
-      (*this->fn)(this->t, TICKIT_EV_FIRE|TICKIT_EV_UNBIND, NULL, this->user);
-
-      TickitWatch *next = this->next;
-      free(this);
-      this = next;
-    }
-
-    t->timers = this;
+    append_watches(&t->running_timers, t->timers);
+    t->timers = rest;
   }
 
-  while(later) {
+  while(t->running_timers) {
+    TickitWatch *this = t->running_timers;
+    t->running_timers = this->next;
+
+    /* TODO: consider what info might point at */
+    (*this->fn)(this->t, TICKIT_EV_FIRE|TICKIT_EV_UNBIND, NULL, this->user);
+
+    free(this);
+  }
+
+  while(t->running_laters) {
+    TickitWatch *later = t->running_laters;
+    t->running_laters = later->next;
+
     (*later->fn)(later->t, TICKIT_EV_FIRE|TICKIT_EV_UNBIND, NULL, later->user);
 
-    TickitWatch *next = later->next;
     free(later);
-    later = next;
   }
 }
 
